@@ -212,4 +212,5 @@ func checkC16(p *Program, r *Report) {
 		}
 	}
 	r.Floor("R16.2", "uses of conversion constants in models", uses, 10)
+	checkIdentities(p, r)
 }
